@@ -111,3 +111,23 @@ Proof.
     unfold bind, get, ret in Er. injection Er as _ <-. reflexivity. }
   rewrite prepare_small in H; [|lia|exact Hf]. injection H as _ <-. discriminate.
 Qed.
+
+(* fix 12650a7: a server's send_headers on an id that is not in the stream table raises exactly the lookup error and
+   changes nothing at all (no stream object, no connection state change, nothing encoded, nothing emitted) *)
+Lemma server_send_headers_unknown sid hs L es pw pd pe c :
+  client c = false -> dget sid (c_streams c) = None ->
+  api_send_headers sid hs L es pw pd pe c = (c, unknown_stream_error c sid).
+Proof.
+  intros Hc H. unfold api_send_headers. unfold bind at 1. unfold get at 1. rewrite Hc.
+  unfold bind at 1. unfold bind at 1. rewrite get_stream_by_id_unknown by exact H.
+  unfold unknown_stream_error. destruct (sid >? highest_for c sid); reflexivity.
+Qed.
+
+(* so a server never opens a stream by sending headers: a successful send_headers on a server found its stream *)
+Lemma server_send_headers_ok_known sid hs L es pw pd pe c c' :
+  client c = false -> api_send_headers sid hs L es pw pd pe c = (c', Ok tt) -> dmem sid (c_streams c) = true.
+Proof.
+  intros Hc H. unfold dmem. destruct (dget sid (c_streams c)) eqn:E; [reflexivity|].
+  rewrite (server_send_headers_unknown sid hs L es pw pd pe c Hc E) in H. unfold unknown_stream_error in H.
+  destruct (sid >? highest_for c sid); discriminate.
+Qed.
